@@ -306,7 +306,6 @@ func runX(s XScript) (nontrivial bool, key string, f *vt.Finding) {
 
 // judgeX compares one round.  goOn is false when the history must stop (Resolve failed, as expected).
 func judgeX(s *XScript, w *world, exps []expect, v views, round int) (nontrivial, goOn bool, f *vt.Finding) {
-	probe := s.Probe != ""
 	o := v.o
 	if o.panicV != nil {
 		return false, false, vt.Failf("panic/resolve", "Resolve panicked: %v\n%s\n%v", o.panicV, short(o.stack, 1500), s.describe())
